@@ -203,8 +203,16 @@ def serial_noeffect(acc):
     from .. import corpus
     for which, base in (('peptide', gen.library().window('3SGB', 'I', 26, 5)),
                         ('ligand-site', corpus.build(corpus.cutout_desc('4DFR', 'B', 26, 8.0))),
-                        ('c-terminus', corpus.build(corpus.window_desc('3SGB', 'I', 46, 5)))):
+                        ('c-terminus', corpus.build(corpus.window_desc('3SGB', 'I', 46, 5))),
+                        # multi-conformation inputs: atoms are copied between conformations
+                        ('alt-loc', _c08(dict(kind='alt', layout=[('A', 'ASP'), ('B', 'ASPs')], lys=[('B', 'LYSs'), ('C', 'LYS')]))),
+                        ('models', _c08(dict(kind='model', layout=[(1, 'ASP'), (2, 'ASPnoCG'), (3, 'absent')])))):
         serial_noeffect_on(acc, which, base)
+
+
+def _c08(d):
+    from . import c08
+    return c08.build(d, 0)
 
 
 def serial_noeffect_on(acc, which, base):
